@@ -782,7 +782,11 @@ def strip_h(rep):
                 heavy = any(s_ and any(pmatch(f"{a_}.get('element') != 'H'", t) is not None or pmatch(f"{a_}['element'] != 'H'", t) is not None for a_ in aliases)
                             for t, s_ in guards_of(pm, inc, st))
                 booked = booked or heavy
-        rep.ob("O3.7", "R15", fi, licensed and booked, c, "a hydrogen node is removed only when licensed by _fully_removable and after it was booked into its heavy neighbours' hcount",
+        if licensed and not booked and any(isinstance(n_, ast.AugAssign) and isinstance(n_.target, ast.Subscript) and is_const(n_.target.slice, "hcount")
+                                           for st in sibs for n_ in walk_local(st)):
+            # an hcount is incremented next to the removal, but not in the shape this rule reads (neighbours gathered by a helper, say)
+            booked = None
+        rep.ob("O3.7", "R15", fi, (licensed and booked) if booked is not None else None, c, "a hydrogen node is removed only when licensed by _fully_removable and after it was booked into its heavy neighbours' hcount",
                {"licensed": licensed, "booked": bool(booked)}, node=c)
 
 
